@@ -41,7 +41,7 @@ PROPS = {
         category="other",
         text="Mailbox.would_conflict is proved, for every command kind, peek bit, message sets and any list of executing commands, to admit a command only if it does not have to be serialised "
              "against an executing one (structure writers run alone; flag writers never overlap a SEARCH), to admit everything when nothing executes, and never to refuse status-only commands "
-             "unless a structure writer executes. This is clause (a) of the property; interleaving-level clauses are not decided here.",
+             "unless a structure writer executes. This is clause (a) of the property; interleaving-level clauses are not decided here. Proved since (second contract on Mailbox.copy, verified up to the point where it queues on the destination): when COPY/MOVE starts to wait for the destination mailbox, the command has already been marked completed on the source and waits with a fresh command object - two opposite-direction copies therefore never hold one mailbox while waiting for the other.",
         note="Partial: clauses (b)-(e) (stale resolution, lock order, wake-ups, linearizability of whole responses) are not yet under contract; a change that breaks them is not detected by this check. Trusted: z3, PyVC encoding, IMAPClientCommand.qstr.",
         assumptions=["z3 sound", "PyVC encoding (DESIGN 2.2)", "STORE and the FETCH tail update flags in one atomic asyncio segment (no await inside the update loops)"],
         not_decided="(b) stale resolution, (c) COPY/MOVE steps, (d) deadlock freedom, (e) linearizability",
@@ -141,7 +141,7 @@ PROPS = {
         category="other",
         text="Proved for all mailbox states and any number of sessions: _dispatch_or_pend_notifications gives every selected session except the excluded one exactly the notifications, in order, once - pushed if idling, otherwise appended behind what is already queued; "
              "every '* n EXPUNGE' expunge() emits carries n = position+1 of the message being removed in the list as it is at that moment (1 <= n <= size before removal), highest first, with the text equal to that number; "
-             "after the recorded fix, check_new_msgs_and_flags announces a new EXISTS count directly only to sessions with an empty queue (or idling) and otherwise queues it behind the pending EXPUNGEs.",
+             "after the recorded fix, check_new_msgs_and_flags announces a new EXISTS count directly only to sessions with an empty queue (or idling) and otherwise queues it behind the pending EXPUNGEs. Proved since: pending_expunges() is true exactly when ANY queued notification is an EXPUNGE; send_pending_notifications sends the whole queue in order and empties it; Mailbox.selected reports EXISTS == len(msg_keys) and registers the session in the same step (no await in between); Authenticated.do_select has an empty queue when that snapshot is taken (call-site assertion), reports exactly READ-ONLY/READ-WRITE, and leaves the session deselected when it fails.",
         note="Partial: the linking invariant between each session's replayed view and the server list across whole histories (DESIGN J), the pending_expunges() gates in do_fetch/do_store/do_search and selected() are not under contract; "
              "the whole-history statement is covered only by the bounded view-replay oracle (156 scripted two-session histories).",
         assumptions=["z3 sound", "PyVC encoding (DESIGN 2.2)", "ClientProxy.push hands data to the socket in order (A-ASYNC)", "distinct sessions are distinct objects (class invariant clients-injective)"],
@@ -183,7 +183,7 @@ PROPS = {
         category="other",
         text="Proved: for every message, an authenticated session's message is forwarded as exactly '{<octet count>}\\n' followed by the message itself, one frame per message, and a session that is not authenticated forwards nothing "
              "(state gate, shared with C18 a). Bounded (exhaustive over 9 stream units up to 2-3 per stream x 3 segmentations, real asyncio.StreamReader): the read loop delivers exactly the commands the byte stream denotes, sends '+' exactly for "
-             "synchronising literals, answers over-limit input with BAD and (after the recorded fix) stays in sync - the next command is no longer swallowed.",
+             "synchronising literals, answers over-limit input with BAD and (after the recorded fix) stays in sync - the next command is no longer swallowed. Proved since: IMAPSubprocessInterface.msgs_to_client (after the recorded fix F50) writes to the IMAP client, piece by piece and in order, exactly what arrived from the user process - nothing altered, nothing skipped except possibly the one last piece whose write failed - for every sequence of arrivals (loop invariant over a ghost stream). Bounded since: the real relay (IMAPClient + get_and_connect_subprocess + msgs_to_client) against a stand-in user process on a loopback socket, literals with CRLF-free runs from 10 octets to 1 MB, written in one piece or in 1460/50000-octet pieces.",
         note="The read loop itself (rstrip, $-anchored literal regex, int(), three size tests) is NOT under contract: the position-level refinement proof planned in DESIGN 7 C19 was not built; only bounded evidence covers clauses (a), (b). "
              "De-framing in IMAPClientProxy.run and the response relay msgs_to_client are not decided.",
         assumptions=["z3 sound", "PyVC level-1 strings", "A-ASYNC StreamReader/Writer", "IMAPSubprocessInterface.unauthenticated never writes to a user process"],
@@ -203,12 +203,12 @@ PROPS = {
     ),
     "C12": dict(
         design_ref="DESIGN.md 7 C12",
-        technique="contract-based deductive verification (PyVC + z3) of the persist/restore pair over a ghost model of the committed sqlite row: Mailbox.shutdown and Mailbox._restore_from_db; exhaustive codec oracle and restart end-to-end oracle (bounded)",
+        technique='contract-based deductive verification (PyVC + z3) of the persist/restore pair over a ghost model of the committed sqlite rows: Mailbox.commit_to_db (real body, SQL statements as assumed contracts pinned to their text), Mailbox.shutdown, IMAPUserServer.shutdown and Mailbox._restore_from_db; exhaustive codec oracle and restart end-to-end oracle (bounded)',
         category="other",
         text="Proved: Mailbox.shutdown(commit_db=True) ends with the committed row equal to the in-memory (uid_vv, next_uid, uids, msg_keys, num_msgs, subscribed) and releases every queued command; "
-             "Mailbox._restore_from_db, from any committed row written from an invariant state, restores exactly those values and rebuilds both index maps as exact inverses. Together: restore(persist(s)) == s on the UID state, for all states.",
+             "Mailbox._restore_from_db, from any committed row written from an invariant state, restores exactly those values and rebuilds both index maps as exact inverses. Together: restore(persist(s)) == s on the UID state, for all states. Proved since: Mailbox.commit_to_db itself (the real body, over a ghost model of this mailbox's rows in both tables) leaves the committed rows equal to the UID state and to exactly the non-empty flag sequences; IMAPUserServer.shutdown shuts down every active mailbox and does so with commit_db left at its default True (call-site assertion), so an orderly shutdown commits every mailbox.",
         note="Assumed, not proved: commit_to_db's SQL (contract: the row written decodes to the current state) and the fetch of the row (A-DB), with the column codec expand(compact(xs)) == xs checked exhaustively for all subsets of 0..12 (bounded). "
-             "Flags (sequences table), attributes and the mailbox list after restart are covered only by the bounded restart oracle (64 histories). The first-activation path (INSERT of a fresh row) is not under contract.",
+             "Flags (sequences table), attributes and the mailbox list after restart are covered only by the bounded restart oracle (64 histories). The first-activation path (INSERT of a fresh row) is not under contract. The SQL statements of commit_to_db are assumed contracts pinned to their exact text (an edited statement leaves the verified subset and is then judged by the restart oracle only); reading the flag rows back in _restore_from_db is not tied to the ghost rows yet.",
         assumptions=["z3 sound", "PyVC encoding", "A-DB: sqlite commit is atomic and durable; SELECT returns the committed row", "codec round trip (bounded)", "the row was committed from a state satisfying Inv(Mailbox)"],
         not_decided="flags/attributes/list across restart beyond the bounded oracle; SPECIAL-USE re-creation",
     ),
@@ -218,22 +218,19 @@ PROPS = {
         category="other",
         text="Proved for every name a client can send: Mailbox.delete never gets past its guard with a name that equals INBOX ignoring case, in any quoting (after the recorded fix; before it, DELETE \"INBOX\" emptied the inbox), "
              "and the name it then works with is confined (C09). Everything else the property says about LIST/LSUB following the CREATE/DELETE/RENAME/SUBSCRIBE history is checked only by the bounded oracle: after every step of 40-200 seeded histories "
-             "INBOX is listed, no name is listed twice, \\HasChildren holds exactly when an existing mailbox lies below, a deleted leaf is gone, RENAME moves the subtree with its UIDs and leaves nothing under the old name, and a refused command changes neither the listing nor the directory tree.",
+             "INBOX is listed, no name is listed twice, \\HasChildren holds exactly when an existing mailbox lies below, a deleted leaf is gone, RENAME moves the subtree with its UIDs and leaves nothing under the old name, and a refused command changes neither the listing nor the directory tree. Bounded since: RENAME of a root, a middle node and a leaf of a 3-level tree with every message of the subtree fetched by UID before and after (subject and flags) and an APPEND into every moved mailbox that must land in its own directory; the regular expression built for LIST/LSUB patterns compared with an independent RFC 3501 wildcard matcher for every pattern over {a,b,/,%,*} up to length 4 against every name over {a,b,/} up to length 4.",
         note="Narrow deductive part: create/rename outcome shapes, do_list's attribute recomputation (DESIGN F37), the LIKE-based rename query (F38), the wildcard translation and LIST-EXTENDED are not under contract.",
         assumptions=["z3/cvc5 sound", "PyVC level-1 strings (str.lower() compared with a constant is decided as a case-insensitive match)"],
         not_decided="(b)-(g) beyond the bounded oracle",
     ),
     "C11": dict(
         design_ref="DESIGN.md 7 C11",
-        technique="contract-based deductive verification (PyVC + z3) with crash obligations: a crash invariant over ghost (committed, pending) database state is proved at every await of Database.apply_migrations; kill-at-every-statement oracle on the real start-up (bounded, exhaustive over statements)",
+        technique="contract-based deductive verification (PyVC + z3) with crash obligations: a crash invariant over ghost (committed, pending) database state at every await of Database.apply_migrations; the restart resync verified WITHOUT environment assumption E1 (check_new_msgs_and_flags#recovery: any files may be missing or added); commit_to_db verified against a ghost model of the mailbox's rows with each SQL statement an assumed contract pinned to its text; three kill oracles on the real process (bounded)",
         category="other",
-        text="For first start-up and schema migration: at every point where the process can be suspended or killed inside Database.apply_migrations, the durable state satisfies 'number of durably applied migrations == number of durable version rows', "
-             "which is exactly what the next start needs to continue (recorded fix: each migration and its version row are now one transaction; before, 11 of 22 kill points left a database that could never be opened again). "
-             "The bounded oracle kills the real process (os._exit) before every SQL statement of a first start and then starts again.",
-        note="Partial: only clause (a) for the database schema. Crash points inside commit_to_db, append, copy, expunge, pack, rename, delete (acknowledged results survive; no revealed (UIDVALIDITY, UID) is rebound; UIDNEXT above every revealed UID) "
-             "are NOT under contract - DESIGN F29/F30 remain suspected. Torn writes inside sqlite or a single file write are outside the model (A-DB, A-MH).",
-        assumptions=["z3 sound", "PyVC encoding", "A-DB: sqlite DDL is transactional inside BEGIN..COMMIT, durable at once outside; COMMIT is atomic"],
-        not_decided="(b), (c), (d) and every crash point outside apply_migrations",
+        text="(a) At every point where the process can be suspended or killed inside Database.apply_migrations, the durable state satisfies 'durably applied migrations == durable version rows' (recorded fix: each migration and its version row are one transaction; before, 11 of 22 kill points left a database that could never be opened again). (e, f) Whatever the folder looks like after a kill - files removed, files added, both - the resync that runs on restart never lowers UIDNEXT, keeps UIDNEXT above every UID in the list, and every UID in the rebuilt list is either bound to the message key it was bound to or is fresh (>= the old UIDNEXT): proved for all restored states satisfying the representation invariant, with one stated fact of finite arithmetic (pigeonhole). (d) Mailbox.commit_to_db, which every command runs before its tagged reply, is proved to leave this mailbox's committed rows equal to its UID state and to exactly its non-empty flag sequences, touching no other mailbox's rows (ghost model of the two tables; the SQL statements are assumed contracts tied to their exact text). Bounded: the real process is killed before every SQL statement of a first start; after removing any subset of message files and/or adding one behind the server's back (16 cases); and after 1-3 acknowledged flag-changing commands on two mailboxes (60 histories) - then restarted and compared.",
+        note="Partial: crash points INSIDE commit_to_db, append, copy, expunge, pack, rename, delete are not enumerated by any obligation; the argument for (b), (c) is 'every command commits before it replies' (commit_to_db's contract) plus sqlite's atomic COMMIT (A-DB). Observation O1 (DESIGN 12.4): a kill between a file removal and the commit, with a delivery in the same window, leaves a listed message without a file.",
+        assumptions=['z3 sound', 'PyVC encoding', 'A-DB: sqlite DDL is transactional inside BEGIN..COMMIT, durable at once outside; COMMIT is atomic; each reviewed SQL statement does what its contract says', 'pigeonhole fact stated as a precondition of the recovery contract', 'codec round trip of compact_sequence/expand_sequence (bounded tier)'],
+        not_decided='(b), (c) beyond commit-before-reply; crash points inside the multi-step mailbox operations',
     ),
     "C08": dict(
         design_ref="DESIGN.md 7 C08",
@@ -241,7 +238,7 @@ PROPS = {
         category="other",
         text="Proved: IMAPClientCommand.parse lets nothing but BadCommand subclasses escape even when the recursive descent raises RecursionError (recorded fix), and _p_date turns every token that matches the date grammar but is not a calendar date "
              "into BadSyntax instead of ValueError (recorded fix; _p_date_time likewise, bounded only). The bounded oracle runs ~60 sentences covering every command and a few hundred to a few thousand seeded mutations through the real parser and "
-             "demands that only BadCommand escapes.",
+             "demands that only BadCommand escapes. Proved since: _p_string decodes quoted-string escapes (result == unescape of exactly the quoted prefix; recorded fix F49) and takes a literal by its announced count, consuming exactly prefix + count characters; is_seq_num returns exactly the numeral's value, '*' for '*', None otherwise, and raises nothing (its SyntaxError branch is dead). Bounded since: every text over a 6-letter alphabet up to length 6 as quoted string and as literal; 274 fetch attributes (sections, partials, .PEEK, RFC822 forms, letter case) compared component-wise with an independent reading.",
         note="Very partial: the ~70 _p_* functions are abstracted by one assumed contract; faithfulness of the produced AST (escapes, literals, INBOX exactness, sections, sets) and whole-grammar agreement with RFC 3501 are NOT decided "
              "(DESIGN F21, F23 remain suspected). Known finding F20: trailing data after a complete command is ignored (pinned by the repository's own tests).",
         assumptions=["z3 sound", "PyVC encoding", "_p_* functions raise only BadCommand subclasses or RecursionError (bounded evidence)", "A-RE/datetime contracts as listed"],
